@@ -262,37 +262,43 @@ func Stress(seed uint64, goroutines, iters int) string {
 		if err != nil {
 			continue
 		}
-		item := &q{g: g}
-		for s := range d.Cursors {
-			item.want = append(item.want, runShared(d, s, &item.g, settings))
-		}
-		qs = append(qs, item)
+		qs = append(qs, &q{g: g})
+	}
+	// the concurrent phase runs FIRST, on a cold process (a serial warm-up would fill any cache and
+	// hide unsynchronised lazy initialisation); the serial reference results are computed afterwards
+	type obs struct {
+		qi, start int
+		got       string
 	}
 	var wg sync.WaitGroup
 	var mu sync.Mutex
-	bad := ""
+	var seen []obs
 	for gi := 0; gi < goroutines; gi++ {
 		wg.Add(1)
 		go func(gi int) {
 			defer wg.Done()
 			lr := NewRng(seed*1000 + uint64(gi))
+			local := make([]obs, 0, iters)
 			for it := 0; it < iters; it++ {
-				item := qs[lr.Intn(len(qs))]
+				qi := lr.Intn(len(qs))
 				s := lr.Intn(len(d.Cursors))
-				got := runShared(d, s, &item.g, settings)
-				if got != item.want[s] {
-					mu.Lock()
-					if bad == "" {
-						bad = fmt.Sprintf("goroutine %d: node %d: got %s want %s", gi, s, got, item.want[s])
-					}
-					mu.Unlock()
-				}
+				local = append(local, obs{qi, s, runShared(d, s, &qs[qi].g, settings)})
 			}
+			mu.Lock()
+			seen = append(seen, local...)
+			mu.Unlock()
 		}(gi)
 	}
 	wg.Wait()
-	if bad != "" {
-		return "mismatch " + bad
+	for _, item := range qs {
+		for s := range d.Cursors {
+			item.want = append(item.want, runShared(d, s, &item.g, settings))
+		}
+	}
+	for _, o := range seen {
+		if o.got != qs[o.qi].want[o.start] {
+			return fmt.Sprintf("mismatch query %d from node %d: concurrent %s, serial %s", o.qi, o.start, o.got, qs[o.qi].want[o.start])
+		}
 	}
 	return fmt.Sprintf("ok %d", goroutines*iters)
 }
